@@ -18,8 +18,8 @@ LEVEL = "model_checking"
 def run(ctx, selftest=False):
     from .. import jk
     jk.load()
-    ctx.rule = ("cases = histories of calls exported by TLC from HistoryMC (samples: 12 reads, 4 mutations, 5 derivations; data: 9 reads, "
-                "4 derivations; prior: 4 reads; sampler: 3 reads, 4 draws), each replayed on a real object of 6 (thorough 12) seeded configurations; distinct = distinct "
+    ctx.rule = ("cases = histories of calls exported by TLC from HistoryMC (samples: 14 reads, 4 mutations, 5 derivations; data: 10 reads, "
+                "5 derivations; prior: 6 reads; sampler: 5 reads, 4 draws), each replayed on a real object of 6 (thorough 12) seeded configurations; distinct = distinct "
                 "(kind, history, configuration); trivial = histories of one call")
     ctx.assumptions = ["TLC/SANY", "a fresh twin built through the public constructors from regenerated inputs is a valid oracle for the "
                        "content (the constructors themselves are the subject of C15 / C17 / C09)", "answers compared to rtol 1e-11"]
